@@ -500,6 +500,10 @@ SEED_OPS = [
     ("opt_proto_recv", "String?.prototype.substring(1)"), ("opt_proto_member", "o.x?.prototype.trim()"),
     ("opt_call_member_callee", "o?.x.y?.(a).trim()"), ("pluseq_computed_sum", "o[a + b] += c"),
     ("apply_surplus_array", "String.prototype.concat.apply(a, [b], [c], d)"),
+    ("delete_optchain", "delete a?.b.substring(1).x"), ("delete_computed", "delete o[a + b]"),
+    ("path_call_computed", "o[f()].substring.call(g(), 1)"), ("path_apply_computed", "o[f()].x.concat.apply(g(), [b])"),
+    ("tpl_marker_line", "a + `\n//# sourceMappingURL=${b}`"), ("str_marker_line", "a.concat('\\\n//# sourceMappingURL=x.map')"),
+    ("tpl_nonascii_escape", "`\u00ab\\x60${a}\\x60\u00bb\\x24{b}\\x5c`"), ("str_nonascii", "a + '\u00e9\\x27\u2028' + b"),
 ]
 
 CONTEXTS = [
@@ -520,6 +524,9 @@ CONTEXTS = [
     ("throw", "function m() { throw %s; }"), ("call_arg", "function m() { x(%s); }"), ("array_elem", "function m() { v = [1, %s]; }"),
     ("obj_value", "function m() { v = { k: %s }; }"), ("cond_arm", "function m() { v = c ? %s : 1; }"),
     ("seq", "function m() { v = (x(), %s); }"), ("logical", "function m() { v = c && %s; }"),
+    ("super_arg", "class C extends K { constructor(a, b) { super(%s); } }"), ("import_arg", "async function m() { return await import(%s); }"),
+    ("super_member_arg", "class C extends K { m(a, b) { return super.m(%s); } }"), ("new_arg", "function m() { return new K(%s); }"),
+    ("tagged_arg", "function m() { return tag`x${%s}`; }"), ("yield_arg", "function* m() { yield %s; }"), ("await_arg", "async function m() { await %s; }"),
     ("class_method", "class C { m() { return %s; } }"), ("class_static_field", "function m() { class C { static s = %s; } }"),
     ("class_field", "function m() { class C { f = %s; } }"), ("class_field_top", "class C { f = %s; }"),
     ("class_computed_key", "function m() { class C { [%s]() {} } }"),
